@@ -1114,7 +1114,8 @@ def extra_c01(pid, tier, seed, workdir, known, write_replay):
                 # the call returns Ok - an accepted shader - and the text is what rustc rejects here
                 strs = re.findall(r'"([^"]*)"', case_by_id_fm.get(cid, ""))
                 src = re.sub(r"\\u\{([0-9a-fA-F]+)\}", lambda mm: chr(int(mm.group(1), 16)), strs[1]) if len(strs) > 1 else ""
-                kw = sorted(set(re.findall(r"[A-Za-z_][A-Za-z0-9_]*", src)) & RUST_KEYWORDS_WGSL_ALLOWS)
+                code = re.sub(r"/\*.*?\*/", " ", re.sub(r"//[^\n]*", " ", src), flags=re.S)       # identifiers of the code, not words of comments
+                kw = sorted(set(re.findall(r"[A-Za-z_][A-Za-z0-9_]*", code)) & RUST_KEYWORDS_WGSL_ALLOWS)
                 if kw:
                     items.append(("rustc#keyword-identifier-with-rustfmt-on", f"option set {opt} (rustfmt on): the WGSL identifier(s) {kw} are Rust keywords; the call returns Ok with text rustc rejects ({what[:100]})", cid, True))
                 else:
